@@ -44,6 +44,17 @@ def TARGET_FILES(cls):
 
 
 def gen_member(rng, role, base):
+    if role in ("rrule", "exrule") and rng.random() < 0.07:
+        # a recurrence SET as a member of the set: one inclusion (or
+        # exclusion) source whose own exclusions stay its own
+        inner = RL.gen_set(rng, cache=rng.random() < 0.3, max_rules=2,
+                           max_dates=3, member_cache_p=0.2)
+        inner["base"] = list(base)
+        for k in ("rrules", "exrules"):
+            inner[k] = [RL.gen_family_rule(rng, base) for _ in inner[k]]
+        for k in ("rdates", "exdates"):
+            inner[k] = [RL.gen_family_date(rng, base) for _ in inner[k]]
+        return inner
     if role in ("rrule", "exrule"):
         spec = RL.gen_family_rule(rng, base, cache=rng.random() < 0.35)
         if not spec["cache"] and rng.random() < 0.4:
@@ -62,6 +73,10 @@ def generate(cls, rng):
     if rng.random() < 0.25:
         for r in ("rrules", "rdates", "exrules", "exdates"):
             init[r] = []
+    # every datetime of the run aware, in one of three UTC offsets chosen by
+    # its own fields (6 h and 12 h apart: the family's occurrences sit on a
+    # 6-hour grid, so instants spelled in different offsets do coincide)
+    init["aware"] = rng.random() < 0.1
     base = init["base"]
     ops = []
     live = []
@@ -157,6 +172,9 @@ class Mirror(object):
 def execute(cls, scenario, ctx):
     from dateutil import rrule as rr
     init = scenario["init"]
+    if init.get("aware"):
+        RL.AWARE_OFFSETS = [0, -360, 720]
+        ctx.probe("aware_members_mixed_offsets")
     base = RL.dt(init["base"])
     A = rr.rruleset(cache=True)
     B = rr.rruleset(cache=False)
@@ -172,7 +190,10 @@ def execute(cls, scenario, ctx):
                 return False
             cost[0] += RL.LAST_MODEL_COST
             model[role].append(ml)
-            if payload.get("cache"):
+            if payload.get("kind") == "set":
+                ctx.probe("nested_set_member")
+                objs = [RL.build_set(payload), RL.build_set(payload)]
+            elif payload.get("cache"):
                 shared = RL.build_rule(payload, cache=True)
                 objs = [shared, shared]
                 ctx.probe("shared_cached_member")
